@@ -574,9 +574,10 @@ class Explorer(object):
     'always true' / 'always false'.  body must rebuild its own state on every run.  `pinned` maps a source
     text of a condition to a fixed outcome (stated as an assumption by the rule that pins it)."""
 
-    def __init__(self, max_paths=64, pinned=None):
+    def __init__(self, max_paths=64, pinned=None, by_value=False):
         self.max_paths = max_paths
         self.pinned = pinned or {}
+        self.by_value = by_value  # True: one outcome per (site, value expression) instead of per site
         self.paths = []           # list of (decisions, result, exception)
 
     def run(self, body):
@@ -587,25 +588,43 @@ class Explorer(object):
             prefix = pending.pop()
             decisions = []
             by_site = {}
+            by_obj = {}      # id of the undetermined value's expression -> outcome (same value, same outcome)
 
-            def oracle(interp, node, frame, value, prefix=prefix, decisions=decisions, by_site=by_site):
+            def oracle(interp, node, frame, value, prefix=prefix, decisions=decisions, by_site=by_site, by_obj=by_obj):
                 text = _ast.unparse(node)
-                site = (text, frame.module.where(node))
                 if text in self.pinned:
                     return self.pinned[text]
+                # `not X` and `X` are one decision
+                neg = False
+                base_text, base_val = text, value
+                while base_text.startswith('not '):
+                    base_text = base_text[4:]
+                    neg = not neg
+                    if isinstance(base_val, Unk) and isinstance(base_val.expr, tuple) and base_val.expr[:1] == ('not',):
+                        base_val = Unk(base_val.expr[1])
+                site = (base_text, frame.module.where(node))
+                if self.by_value:
+                    site = site + (ndarr.unk_str(base_val) if isinstance(base_val, Unk) else '',)
+                oid = id(base_val.expr) if isinstance(base_val, Unk) else None
+                if oid is not None and oid in by_obj:
+                    return by_obj[oid][0] != neg
                 if site in by_site:
                     k = by_site[site]
                     decisions[k] = decisions[k][:3] + (decisions[k][3] | tags_of(value),)
-                    return decisions[k][0]
+                    if oid is not None:
+                        by_obj[oid] = (decisions[k][0], base_val.expr)
+                    return decisions[k][0] != neg
                 k = len(decisions)
                 if k < len(prefix):
                     choice = prefix[k][0]
                 else:
                     choice = True
-                    pending.append(list(decisions) + [(False,) + site + (tags_of(value),)])
+                    pending.append(list(decisions) + [(False,) + site[:2] + (tags_of(value),)])
                 by_site[site] = k
-                decisions.append((choice,) + site + (tags_of(value),))
-                return choice
+                decisions.append((choice,) + site[:2] + (tags_of(value),))
+                if oid is not None:
+                    by_obj[oid] = (choice, base_val.expr)     # keeps the expression alive: ids stay unique
+                return choice != neg
             try:
                 res = body(oracle)
                 self.paths.append((decisions, res, None))
